@@ -54,7 +54,7 @@ struct HistWorld : World {
         if (prop == "C17") { mulw(w, "SWAP_", 6); mulw(w, "DEL_", 2); setw(w, "BU", 3); }
         if (prop == "C06") { setw(w, "ROUNDTRIP", 14); setw(w, "RESTART", 2); setw(w, "P_CREATE_PERSISTENT", 5); setw(w, "SET_POS", 3); setw(w, "BIG", 1); setw(w, "BIG_VALENCE", 1); setw(w, "OPEN_CELL", 2); setw(w, "P_POS_PERSIST", 1); setw(w, "GC", 6); mulw(w, "SWAP_", 1, 2); setw(w, "BU", 0); }
         if (prop == "C07") { setw(w, "FAULT_LOAD", 30); setw(w, "P_CREATE_PERSISTENT", 4); setw(w, "GC", 4); setw(w, "BU", 0); mulw(w, "SWAP_", 0); setw(w, "SET_E", 0); setw(w, "SET_F", 0); setw(w, "SET_C", 0); }
-        if (prop == "C18") { setw(w, "SWEEP", 24); setw(w, "P_CREATE_PERSISTENT", 4); setw(w, "GC", 4); setw(w, "BU", 0); mulw(w, "SWAP_", 0); setw(w, "SET_E", 0); setw(w, "SET_F", 0); setw(w, "SET_C", 0); }
+        if (prop == "C18") { setw(w, "ADD_PILLOW", 3); setw(w, "SWEEP", 24); setw(w, "P_CREATE_PERSISTENT", 4); setw(w, "GC", 4); setw(w, "BU", 0); mulw(w, "SWAP_", 0); setw(w, "SET_E", 0); setw(w, "SET_F", 0); setw(w, "SET_C", 0); }
         if (prop == "C01") setw(w, "RESTART", 1);
         if (prop == "C20") { setw(w, "BU", 0); setw(w, "CLEAR", 0); setw(w, "P_REQUEST", 6); setw(w, "P_CREATE_PERSISTENT", 2); len_cap = 40; }
         if (p.kernel != "poly") setw(w, "ADD_PILLOW", 0);
